@@ -167,7 +167,7 @@ def run(R, env):
             w = h.with_removed(rem).settle()
             R.worlds += 1
             R.ob("C13.R4", "SpendFunds:%s:tests" % name, n >= 1, "no test of channel_id found", fn=hk)
-            G = Guard("receiver-prefix", subject=lambda s, name=name: s[0] == "call" and is_addr_validator(s) and len(s[2]) == 2 and rcv(s[2][0]) and s[2][1] == ("const", "str", PREFIX[name]))
+            G = Guard("receiver-prefix", subject=lambda s, name=name: s[0] == "call" and is_addr_validator(s) and len(s[2]) == 2 and rcv(s[2][0]) and const_str(s[2][1]) == PREFIX[name])
             found = []
             ok, off = guarded(w, G, prog, env.depth, found)
             R.ob("C13.R4", "SpendFunds:%s:receiver-validated" % name, ok, "a %s spend succeeds without validate_address(receiver, \"%s\"): %s" % (name, PREFIX[name], off), fn=hk, found=found)
